@@ -58,7 +58,7 @@ def estimator_part(ctx, fails):
     from zepid.causal.gformula import TimeFixedGFormula
     from zepid.causal.doublyrobust import AIPTW
     from zepid.causal.snm import GEstimationSNM
-    n = 3 if ctx.quick else 30
+    n = 6 if ctx.quick else 45
     for i in range(n):
         otype = ['binary', 'normal', 'poisson'][i % 3]
         df, meta = datagen.mixed_frame(ctx.rng, n=ctx.rng.randint(50, 90), outcome=otype)
@@ -83,6 +83,18 @@ def estimator_part(ctx, fails):
                     return list(ip.average_treatment_effect['ATE'])
                 both(f, df, rep, 'IPTW.%s.%s' % ('stabilized' if stab else 'unstabilized', std),
                      'IPTW(standardize=%s, stabilized=%s)' % (std, stab), fails, ctx, payload)
+
+                def f2(frame, w, stab=stab, std=std):      # a marginal structural model that is NOT saturated in treatment
+                    ip = IPTW(frame, 'A', 'Y', weights=w, standardize=std)
+                    ip.treatment_model(rhs, stabilized=stab, print_results=False)
+                    ip.marginal_structural_model('A + ' + meta['covs'][0])
+                    ip.fit(continuous_distribution=dist) if dist else ip.fit()
+                    if otype == 'binary':
+                        return list(ip.risk_difference['RD']) + list(ip.risk_ratio['RR'])
+                    return list(ip.average_treatment_effect['ATE'])
+                if std == 'population' or ctx.rng.random() < 0.5:
+                    both(f2, df, rep, 'IPTW.msm-with-covariate.%s.%s' % ('stabilized' if stab else 'unstabilized', std),
+                         'IPTW(standardize=%s, stabilized=%s) with MSM A + %s' % (std, stab, meta['covs'][0]), fails, ctx, payload)
         if otype != 'poisson':
             for p in (0.3, 1.0):
                 def f(frame, w, p=p):
@@ -186,7 +198,7 @@ def coq_part(ctx, fails):
     """small categorical frames: the Coq models on the weighted rows and on the replicated rows vs both runs"""
     from zepid.causal.ipw import IPTW
     from zepid.causal.gformula import TimeFixedGFormula
-    n = 3 if ctx.quick else 30
+    n = 6 if ctx.quick else 45
     exprs, refs = [], []
     for i in range(n):
         df, meta = datagen.cat_frame(ctx.rng, n_cov=1, arities=[2], cell=(2, 3), outcome='binary')
